@@ -469,6 +469,8 @@ func check(r *core.Run) {
 		b, _ = json.Marshal(same)
 		cliCases = append(cliCases, b)
 	}
+	// typedef chains with cycles and unknown bases: the same error list and the same type in every run
+	schema.C05Types(r)
 	if len(cliCases) > 0 {
 		r.SubmitAll("determ", 'A', cliCases)
 		r.Extra["cli_programs"] = len(cliCases)
